@@ -163,15 +163,21 @@ def avoid_listed_mechanisms(rng, desc, rules, writer, kerning, groups):
     class is L/EN/AN with members of another bidi class."""
     neutral = writer_neutral_glyphs(desc, rules, writer)
     bidi = bidi_labels(desc, rules)
+    # (letters of a left-to-right SCRIPT may share a class with right-to-left letters: the
+    # writers split classes by script first, the listed mechanism is about members that stay
+    # together after that split - digits among punctuation, Arabic-Indic digits among letters)
+    scr = S.closure(desc, rules, S.key_scripts)
+    ltr_script = {m for m in desc if scr.get(m) and all(
+        S.script_direction(x) == "LTR" for x in scr[m])}
     side = rng.choice(["public.kern1.", "public.kern2."])
     new_groups = {}
     for name, members in groups.items():
         ms = list(members)
         if name.startswith(side):
             ms = [m for m in ms if m not in neutral or m not in desc]
-        ls = [m for m in ms if "L" in bidi.get(m, ())]
-        if ls and len(ls) != len([m for m in ms if m in desc]):
-            ms = [m for m in ms if "L" not in bidi.get(m, ())]
+        ls = [m for m in ms if "L" in bidi.get(m, ()) and m not in ltr_script]
+        if ls and len(ls) != len([m for m in ms if m in desc and m not in ltr_script]):
+            ms = [m for m in ms if "L" not in bidi.get(m, ()) or m in ltr_script]
         if ms:
             new_groups[name] = ms
     idx = 0 if side.endswith("1.") else 1
@@ -256,6 +262,28 @@ def gen(rng, idx, tier):
             stratum = "bidi_mixed_class"
         else:
             kerning, groups = avoid_listed_mechanisms(rng, desc, rules, writer, kerning, groups)
+    if has_rtl and stratum == "default" and rng.random() < 0.4:
+        # a first-side class that holds one letter of a left-to-right script and one of a
+        # right-to-left script (no neutral member), kerned against single-direction glyphs:
+        # after the split by script each part is unambiguous
+        ltr = [n for n in names if desc[n]["kind"] == "letter" and desc[n]["script"]
+               and all(S.script_direction(x) == "LTR" for x in desc[n]["script"]) and n not in skip]
+        rtl = [n for n in names if desc[n]["kind"] == "letter" and desc[n]["script"]
+               and all(S.script_direction(x) == "RTL" for x in desc[n]["script"]) and n not in skip]
+        if len(ltr) >= 2 and len(rtl) >= 2:
+            a, b = rng.sample(ltr, 2)
+            c, d_ = rng.sample(rtl, 2)
+            for k in list(groups):
+                if k.startswith("public.kern1."):
+                    groups[k] = [m for m in groups[k] if m not in (a, c)]
+                    if not groups[k]:
+                        del groups[k]
+                        kerning = [kk for kk in kerning if kk[0] != k]
+            groups["public.kern1.MIXDIR"] = [a, c]
+            kerning = [kk for kk in kerning if tuple(kk[:2]) not in (
+                ("public.kern1.MIXDIR", b), ("public.kern1.MIXDIR", d_))]
+            kerning.append(["public.kern1.MIXDIR", b, rng.choice([-40, 35])])
+            kerning.append(["public.kern1.MIXDIR", d_, rng.choice([-25, 15])])
     used_scripts = sorted({s for d in desc.values() for s in d["script"]
                            if s not in ("Zyyy", "Zinh", "Zzzz")})
     q = rng.random()
@@ -577,6 +605,16 @@ def classify(v, case):
                 members |= {g for g in spec["groups"].get(k, []) if g in exported}
             else:
                 members.add(k)
+        # the writers split every class by script DIRECTION first: only members of scripts
+        # with the judged pair's direction (Arabic next to Hebrew, Latin next to Greek) take
+        # part in the class pair's bidi decision
+        scr_ = S.closure(desc, rules, S.key_scripts)
+        dirs = {S.script_direction(x) for side_ in det.get("scripts") or [] for x in side_} - {None}
+        # (only when every member has a script direction of its own: a script-neutral member -
+        # punctuation, a generic combining mark - keeps the whole class together)
+        if len(dirs) == 1 and all(scr_.get(g) and None not in {S.script_direction(x) for x in scr_[g]}
+                                  for g in members):
+            members = {g for g in members if {S.script_direction(x) for x in scr_[g]} & dirs}
         key_bidi = set()
         for g in members:
             key_bidi |= bidi.get(g, set())
